@@ -42,7 +42,7 @@ def interesting(beh):
 
 
 DEFECTS = ["clscache", "ctorglob", "objcache", "timelag", "accum", "batchpos"]
-CLASS_LEVEL = {"clscache", "ctorglob"}          # what the bystander of the scan drivers can expose
+CLASS_LEVEL = {"clscache", "ctorglob", "timelag", "accum"}          # what the bystander / own-past pattern of the scan drivers can expose
 
 
 def defect_model():
